@@ -1051,7 +1051,31 @@ def run_symbolic(scen, cfg, lib, limits=None, known=None, prop='?', cfg_name='?'
             elif r == 'unsat':
                 res['discharged'] += 1          # infeasible path
             else:
-                res['inconclusive'].append(f'{cfg_name}: exception on a path of unknown feasibility: {etxt}')
+                # the solver could neither find an input for this path nor refute it within the budget.  The path shows *which*
+                # failure to look for: a bounded number of sampled inputs are run on the real library, and one that raises the
+                # same exception there is a confirmed violation (reported as such); none found stays inconclusive
+                found = None
+                srng = _random.Random(20260927)
+                for _ in range(int(limits.get('exception_samples', 40))):
+                    e2 = run_concrete(scen, cfg, {}, 'real', rng=_random.Random(srng.random()))
+                    if e2.status == 'exception' and str(e2.exc).startswith(type(e).__name__):
+                        found = e2
+                        break
+                if found is not None:
+                    vals = dict(found.used)
+                    vals.update(dict(found.draw_log))
+                    rec = {'config': cfg_name, 'check': name, 'values': _jsonable(vals),
+                           'observed': f'real library: {found.exc} (input found by sampling along a symbolic path the solver could not decide)',
+                           'info': {'exception': etxt}}
+                    hit = match_known(known, prop, cfg_name, name, vals, {'reproduced': True})
+                    if hit is not None:
+                        rec['known'] = hit['id']
+                        if not any(h['known'] == hit['id'] for h in res['known_hits']):
+                            res['known_hits'].append(rec)
+                    else:
+                        res['violations'].append(rec)
+                else:
+                    res['inconclusive'].append(f'{cfg_name}: exception on a path of unknown feasibility: {etxt}')
         finally:
             set_ctx(None)
         if status == 'ok':
